@@ -14,7 +14,8 @@ CHECKS = {
    text='The whole real walker (Searcher::new, list_search_results, visit_dir, ok_to_visit_dir, is_buffered) is executed symbolically from '
         'MIR over an abstract file system whose tree shape, entry kinds, link targets, depth window and root depth are solver variables; on every '
         'path z3 decides that the reported multiset equals {entries whose nesting level is in the window, reachable through directories only}, '
-        'each exactly once, with bfs depth-monotone and dfs subtree-contiguous order. Counterexamples are rebuilt on disk and run through the real binary.',
+        'each exactly once, with bfs depth-monotone and dfs subtree-contiguous order. Counterexamples are rebuilt on disk and run through the real binary.'
+        ' (root_options) the per-root loop of list_search_results with visit_dir summarised and 2-3 roots whose mindepth / maxdepth / archives / symlinks / traversal are all symbolic: each root is walked once with exactly its own options. Names that are not valid UTF-8 are a symbolic bit per node, consulted through the real util::canonical_path (Path::to_str / to_string_lossy by contract).',
    note=TRUST + 'Bounds: 4 (quick) / 5 (thorough) nodes, 1 and 2 roots, window bounds 0..nodes+1, root depth 1..4. Assumed: the file-system contract models '
         '(read_dir lists children in index order; canonicalize/read_link/file_type by contract); check_file summarised as a ghost trace; '
         'special files behave like regular files; links not followed (C18); parse_roots/parse_root_options are not covered here.',
@@ -24,7 +25,8 @@ CHECKS = {
    text='The real evaluator (Searcher::conforms, get_column_expr_value, Expr::fmt, Variant::to_int/to_float/to_bool/to_datetime, str_to_bool) and '
         'the real parser pieces (parse_cond BETWEEN desugaring, parse_func_scalar) are executed symbolically from MIR; z3 decides, for every operator and '
         'all 64-bit / f64 / bool / timestamp operands, that the comparison equals the documented relation, that decimal and boolean literals are '
-        'coerced to what they spell, that BETWEEN is inclusive, and that quoted literals stay values.',
+        'coerced to what they spell, that BETWEEN is inclusive, and that quoted literals stay values.'
+        " (literal_text) `name / path === <literal>` with literal and value from one table incl. the column's own name and display name: operands are evaluated independently. (literal_int, negative) `-size OP -<digits>` for all magnitudes. (e2e) the real main::exec_search on query TEXT — real lexer, parser, walker, check_file, evaluator, aggregates, TopN, Criteria::cmp, ResultsWriter — over the abstract file system; stdout decoded and compared with a reference evaluation over the visited entries.",
    note=TRUST + 'Assumed: get_field_value summarised as an arbitrary Variant of the column type (C04 decides the real attribute); Float operands non-NaN; '
         'text patterns are C12, date literals C13, unit suffixes C14; only = / != on booleans and the six documented operators on dates are claimed. '
         'BETWEEN literals from a 5-entry table, x over all non-negative i64.',
@@ -34,7 +36,8 @@ CHECKS = {
    text='Op::negate, Parser::negate_expr_op, Parser::parse_expr/parse_and/parse_cond/parse_paren and Searcher::conforms are executed symbolically '
         'from MIR; z3 decides for every operator and all operand values that negation yields the complement, for every Expr tree up to the stated depth '
         'that negate_expr_op complements the evaluation (De Morgan), that NOT BETWEEN is the complement of BETWEEN, and for every well-formed token '
-        'sequence over three boolean atoms / and / or / not / ( ) { } up to the stated length that the parsed tree evaluates as the textbook valuation.',
+        'sequence over three boolean atoms / and / or / not / ( ) { } up to the stated length that the parsed tree evaluates as the textbook valuation.'
+        ' (e2e) the real main::exec_search on query TEXT — real lexer, parser, walker, check_file, evaluator, aggregates, TopN, Criteria::cmp, ResultsWriter — over the abstract file system; stdout decoded and compared with a reference evaluation over the visited entries.',
    note=TRUST + 'Assumed: get_field_value summarised; operators restricted to well-typed (type, operator) pairs; regex verdicts uninterpreted. '
         'Bounds: trees of depth 1 (quick) / 2 (thorough); formulas of <= 4 (quick) / <= 6 (thorough) tokens, so nesting <= 2: the depth 5 of the '
         'property statement is not reached.',
@@ -63,7 +66,8 @@ CHECKS = {
         'directions; z3 decides that the result is the lexicographic composition of numeric / chronological / string order with desc reversed. '
         'Parser::parse_order_by runs on symbolic lexems and the comparator induced by its result is decided equal to the textbook one. '
         '(clause_keys) the real lexer and the real Parser::parse on `order by E` for ten key expressions E (arithmetic, brackets, leading sign or number, function calls), with and without a '
-        'WHERE clause (symbolic choice): the key is the same expression tree as `select E`. Counterexamples are replayed through the real parser and the real Criteria::cmp in a native test.',
+        'WHERE clause (symbolic choice): the key is the same expression tree as `select E`. Counterexamples are replayed through the real parser and the real Criteria::cmp in a native test.'
+        ' (e2e) the real main::exec_search on query TEXT — real lexer, parser, walker, check_file, evaluator, aggregates, TopN, Criteria::cmp, ResultsWriter — over the abstract file system; stdout decoded and compared with a reference evaluation over the visited entries.',
    note=TRUST + 'Assumed: T = String with byte-lexicographic Ord (model); key values as rendered by the evaluator: decimals < 1000 (signed for the arithmetic keys size - 100 / 100 - size), fixed-width dates (parse_datetime '
         'on a rendered date summarised; C13), texts from an 8-entry table; column classification read from the Variant constructor in get_field_value. '
         'Permutation / sortedness of the buffer itself is TopN (C06). Bounds: key lists <= 2 keys; ORDER BY clauses <= 3 (quick) / 4 (thorough) tokens.',
@@ -74,7 +78,8 @@ CHECKS = {
         '(<= 3/4 distinct keys x <= 2 rows per key, values / inserted key / limit symbolic) preserves the representation invariant, evicts exactly when '
         'full and evicts the last row of the greatest key; histories of <= 3/4 inserts give the first min(N, limit) rows of the stable sort. The early-exit '
         'guards of the real walker (directory, archive-member and roots loops) and Searcher::new\'s TopN choice are decided inside the abstract file '
-        'system with symbolic LIMIT, archives, ordered / unordered queries, 1 and 2 roots; parse_limit on symbolic lexems.',
+        'system with symbolic LIMIT, archives, ordered / unordered queries, 1 and 2 roots; parse_limit on symbolic lexems.'
+        ' (query_limit) the real Parser::parse on `<fields> from . [limit N]` with symbolic fields (columns and constants): Query.limit = N, and 0 (unlimited) for an absent limit or limit 0 whenever a column is selected. (e2e) the real main::exec_search on query TEXT — real lexer, parser, walker, check_file, evaluator, aggregates, TopN, Criteria::cmp, ResultsWriter — over the abstract file system; stdout decoded and compared with a reference evaluation over the visited entries.',
    note=TRUST + 'Assumed: BTreeMap/Vec contract models; TopN keys abstract (u32) — the real key order is C05; abstract file system as in C01; quick tier '
         'runs the walker without a WHERE clause (every row matches), thorough with symbolic per-row verdicts. Bounds: 4/5 nodes, <= 2 members per archive.',
    technique=TECH),
@@ -84,7 +89,8 @@ CHECKS = {
         'Searcher::get_function_value / get_column_expr_value are executed symbolically from MIR over N symbolic rows (value absent / non-numeric / decimal): '
         'z3 decides COUNT = N, SUM / MIN / MAX exact over bit-vectors, AVG = (sum as f64)/(count as f64) and VAR_*/STDDEV_* = the textbook formula in IEEE '
         'binary64; an undecided float query falls back to the structural comparison plus a native battery of inputs (incl. values > 2^30). The argument of an '
-        'aggregate (also a scalar function such as LENGTH(name)) must be recorded in the row map under the key the aggregate reads.',
+        'aggregate (also a scalar function such as LENGTH(name)) must be recorded in the row map under the key the aggregate reads.'
+        ' (e2e) the real main::exec_search on query TEXT — real lexer, parser, walker, check_file, evaluator, aggregates, TopN, Criteria::cmp, ResultsWriter — over the abstract file system; stdout decoded and compared with a reference evaluation over the visited entries.',
    note=TRUST + 'Bounds: 0..3 (quick) / 0..5 (thorough) rows for the exact family with values < 2^16 (no claim about usize overflow of sums), 1..2 / 1..3 rows with '
         'values < 2^8 for the float families. That the buffer holds exactly the entries matching WHERE is C01/C02.',
    technique=TECH),
@@ -93,7 +99,8 @@ CHECKS = {
    text='The grouped tail of the real Searcher::list_search_results (entered from bb0 with no roots and a pre-filled row buffer), partition_output_buffer with its '
         'closures, the per-group get_column_expr_value / get_function_value / get_aggregate_value and the ORDER BY comparator closure (through a sort_by model that '
         'calls the real closure) are executed symbolically from MIR: for 0..N rows with every assignment of group keys and symbolic sizes z3 decides that the emitted '
-        'rows are exactly one per distinct key with the COUNT and SUM of that block, sorted by key or by count (asc / desc) when ORDER BY is given.',
+        'rows are exactly one per distinct key with the COUNT and SUM of that block, sorted by key or by count (asc / desc) when ORDER BY is given.'
+        ' Also ORDER BY sum(size) (multi-digit symbolic values: text order differs from numeric order) and a function-valued group key (length(name)). (e2e) the real main::exec_search on query TEXT — real lexer, parser, walker, check_file, evaluator, aggregates, TopN, Criteria::cmp, ResultsWriter — over the abstract file system; stdout decoded and compared with a reference evaluation over the visited entries.',
    note=TRUST + 'Bounds: 0..3 (quick) / 0..4 (thorough) rows, key values from a 3-entry table (the empty key doubles as "column absent"), one grouping key, '
         'aggregates COUNT and SUM. HashMap iteration order is unspecified: rows are compared as a set unless ORDER BY is present. The grouping key of `group by <column>` is decided '
         'to parse to the plain column (whole real Parser::parse, six key columns, with and without WHERE); the grouping values written by check_file are not covered.',
@@ -114,7 +121,8 @@ CHECKS = {
    text='The archive branch of the real walker (through the real exec_search) is executed symbolically from MIR: every file may be a zip with 0..2 members, '
         'ZipArchive::new may fail (corrupt archive), single members may fail to open; z3 decides that every member of every readable archive in the window is reported '
         'exactly once, corrupt archives and unreadable members are skipped without an error status, ordinary rows are exactly those of the run without `archives`, '
-        'and (family limit) that LIMIT counts members like entries. Counterexamples are replayed with real zip files (incl. members with an unsupported method).',
+        'and (family limit) that LIMIT counts members like entries. Counterexamples are replayed with real zip files (incl. members with an unsupported method).'
+        ' (walk, dfs) archives in depth-first mode. (fileinfo/member_time) util::datetime::to_local_datetime on every date zip::DateTime::try_from_msdos accepts under a SYMBOLIC CLOCK (chrono with_* / from_ymd_opt / and_hms_opt by calendar contract): the stored date and time whatever the clock, never a panic; (fileinfo/member_columns) the zip variants of the C04 wiring family incl. members without a stored mode.',
    note=TRUST + 'Assumed: zip crate by contract (new / len / by_index); which names count as archives is a symbolic flag per file (extension test: C04); '
         'member attributes (to_file_info and the file_info arms of get_field_value) are not covered by this check; check_file summarised. Bounds: 4/5 nodes, <= 2 members.',
    technique=TECH),
@@ -124,7 +132,8 @@ CHECKS = {
         'abstract file system with symbolic links: every non-root node may be a link to any node or dangling, spelled absolutely or relative to its own directory; the '
         'root is an absolute path or `.`. Path spellings are modelled (std::path equality by components, the OS resolves relative text against the cwd, opendir / '
         'canonicalize follow links), inodes are per node. z3 decides for every link graph that the walk terminates within the unrolling bound, that every entry of every '
-        'directory reachable through directories and links-to-directories is reported exactly once, and that the status is 0. Counterexamples are rebuilt with real symlinks.',
+        'directory reachable through directories and links-to-directories is reported exactly once, and that the status is 0. Counterexamples are rebuilt with real symlinks.'
+        " (links/above) links may point at the root's parent directory (one level less deep); (links/chains) chains of two links; (root_options) see C01.",
    note=TRUST + 'Assumed: the file-system contract above; link targets are not links themselves (chains outside the bound); targets lie inside the root tree or are dangling '
         '(targets above / outside the root — where the depth arithmetic can underflow — are outside the bound); no depth window; check_file summarised. Bounds: 4/5 nodes.',
    technique=TECH),
@@ -149,7 +158,8 @@ CHECKS = {
         'symbolic lexem vectors (each position a solver variable over an alphabet of lexems; six families: the full alphabet and clause-specific alphabets behind fixed '
         'prefixes). Every path ending in a panic obligation (index, subtraction, unwrap / expect) or exceeding every loop bound derivable from the token count (no progress '
         '= hang) yields a token vector that is run through the real binary; what reproduces there (status 101 / no termination) is a violation. ArithmeticOp::calc on '
-        'arbitrary operands is included for evaluation-time crashes.',
+        'arbitrary operands is included for evaluation-time crashes.'
+        ' On every accepted (Ok) token vector a must-reject oracle is applied: unbalanced or mismatched brackets, dangling / unknown operator, ORDER BY position outside the select list, non-numeric LIMIT, unknown output format, no column — such a vector must be rejected (replayed: status 2 and no rows). The eval family also runs the C16 `args` family (scalar functions on ill-typed / out-of-range arguments, std::time::Duration constructors by contract).',
    note=TRUST + 'Assumed: the lexer is replaced by the symbolic lexem vector (the lexer loop over raw bytes is not covered); UserDirs::new = None. Bounds (symbolic tokens after the '
         'prefix): full alphabet 2 (quick) / 4 (thorough); select, where, tail 3 / 5; ORDER BY, GROUP BY 3 / 4; 60 s per family in the quick tier (an unexhausted length is noted '
         'in the evidence). Crashes of scalar functions on ill-typed arguments and of date / boolean literals are not covered by this check.',
@@ -159,7 +169,8 @@ CHECKS = {
    text='Real MIR, z3: (tree) symbolic token sequences over three columns, + - * / %, ( ) and unary minus through the real Parser::parse_expr: the parsed tree is the '
         'precedence-climbing tree of the textbook; (calc) ArithmeticOp::calc on symbolic f64 / integer operands is the IEEE operation named and never panics; (cache) '
         'Searcher::get_column_expr_value with the per-row value cache and the real Expr::fmt: the value of an expression evaluated after another one into the same row map equals '
-        'its value in an empty map; (minus) a leading minus negates literals and columns.',
+        'its value in an empty map; (minus) a leading minus negates literals and columns.'
+        ' (e2e) the real main::exec_search on query TEXT — real lexer, parser, walker, check_file, evaluator, aggregates, TopN, Criteria::cmp, ResultsWriter — over the abstract file system; stdout decoded and compared with a reference evaluation over the visited entries.',
    note=TRUST + 'Assumed: get_field_value summarised as symbolic 16-bit integers per column; the lexer decides which characters are operators (outside); f64 % is fmod. '
         'Bounds: expressions of <= 5 (quick) / 7 (thorough) tokens; cache: ordered pairs from 8 representative expressions. Scalar function values are C16.',
    technique=TECH),
@@ -181,7 +192,8 @@ CHECKS = {
         'language (search semantics) and z3 decides over all paths below the root whether it differs from the reference root/(dir/)* G(pattern) <anything>, G mapping ** / * / ? '
         'to any run / run within a component / one character of a component and everything else literally. (fold, Engine B) the real matches_dockerignore_filter / '
         'matches_hgignore_filter over <= 3/4 filters with symbolic verdicts and negation flags: docker = the last matching pattern decides, hg = any match. (precedence) the '
-        'head of the real list_search_results with symbolic Option<bool> root options and configuration defaults: each mechanism is applied iff option.unwrap_or(config.unwrap_or(false)).',
+        'head of the real list_search_results with symbolic Option<bool> root options and configuration defaults: each mechanism is applied iff option.unwrap_or(config.unwrap_or(false)).'
+        " (upstream) search_upstream_dockerignore / _hgignore from a root spelled canonically, through a link or with `..` in a small path world: the ignore file of the nearest ancestor of the root's real location, anchored at its canonical path. (gitarg) the walker with `gitignore`: libgit2's is_path_ignored (verdict symbolic) is asked once per entry about the entry's OWN path, and the rows are the entries it does not ignore.",
    note=TRUST + 'Not covered: gitignore verdicts (one call into libgit2, FFI) — only the option precedence for git is; the structural envelope of fselect\'s ignore regexes (a pattern '
         'applies at any depth and to everything below / after a match — e.g. `*.log` also hides `x.logs`) is taken as given, so the claim is about the translation of the pattern '
         'text, not about full agreement with the tools; parse_hgignore / parse_dockerignore line handling (comments, blank lines, `syntax:` sections, `!`) and the upstream search '
@@ -192,7 +204,8 @@ CHECKS = {
    text='Real MIR, z3: (table) the DateTime arm of Searcher::conforms for all 64-bit instants t and intervals a <= b: = / != / < / > / <= / >= as the statement defines them; '
         '(literal) util::datetime::parse_datetime from bb0 with DATE_REGEX.captures modelled — which optional groups are present and all six numeric fields symbolic, chrono by '
         'contract: every Ok result is [start, finish] = (h|0, m|0, s|0) .. (h|23, m|59, s|59) of the day named, start <= finish, and no field value makes it panic; (relative) '
-        'today / yesterday / +N / -N under a symbolic clock denote the whole local day; (lexer_date) lexer::looks_like_date is true exactly for years 1970..2999 with month 01..12.',
+        'today / yesterday / +N / -N under a symbolic clock denote the whole local day; (lexer_date) lexer::looks_like_date is true exactly for years 1970..2999 with month 01..12.'
+        " (captures_model) the contract model of DATE_REGEX.captures that `literal` rests on is validated natively against the tree's real regex for 48 literal shapes (day / hour / minute / second precision, both separators, 1- and 2-digit fields). File times carry a symbolic sub-second part; literals do not.",
    note=TRUST + 'Assumed: the regex crate captures what the two date regexes say (captures modelled: groups present left to right, numbers of their digit width); chrono: '
         'with_hour/minute/second -> None outside their range, Local.with_ymd_and_hms -> Single(midnight of that day) or None (calendar validity uninterpreted), local-time '
         'conversion and formatting of the `modified` column, chrono-english free-form dates and DST gaps are outside the claim.',
@@ -203,7 +216,8 @@ CHECKS = {
         '(units and multipliers read from docs/usage.md at run time) in several letter cases with a symbolic number n (also n + 1/2, 1/4, 1/16): the result is number x '
         'multiplier for all n, decided in integer arithmetic through an exact-double abstraction whose side condition is checked on every operation; (format) '
         'util::format_filesize from bb0 with the specifier regex captures modelled and humansize::format_size uninterpreted: for every units word (flags c / d / s before or '
-        'after the unit), precision and space the option record handed to humansize (base, fixed unit, decimal places, space) and the short-unit rewrites are what the grammar denotes.',
+        'after the unit), precision and space the option record handed to humansize (base, fixed unit, decimal places, space) and the short-unit rewrites are what the grammar denotes.'
+        ' (coerce) ten literal spellings incl. leading-dot fractions (.5k) through the real Variant::to_int / to_float. The `replace` chain after humansize is compared by its effect on every unit text of the base in question.',
    note=TRUST + 'Bounds: n < min(2^20, 2^51 / multiplier) so that every product is an exact double (larger literals, where rounding occurs, are outside); fractions 1/2, 1/4, '
         '1/16 only. Outside: humansize itself (monotonicity and round-trip of the rendered text), the regex crate (captures modelled), Field::FormattedSize wiring.',
    technique=TECH),
